@@ -328,7 +328,9 @@ def _names(term: P, params):
 
 
 LOSSY = {"floor", "ceil", "round", "int", "len", "numpy.floor", "numpy.ceil", "numpy.round", "numpy.rint", "numpy.trunc", "numpy.sign", "type", "id",
-         "numpy.shape", "numpy.size", "bool", "abs", "numpy.abs", "hash", "numpy.fix"}
+         "numpy.shape", "numpy.size", "bool", "abs", "numpy.abs", "hash", "numpy.fix",
+         "sorted", "set", "frozenset", "numpy.unique", "numpy.sort", "collections.Counter", "sum", "numpy.sum", "max", "min", "numpy.max", "numpy.min",
+         ".sum", ".max", ".min", ".mean", "numpy.mean", "numpy.linalg.norm"}
 
 
 def _drop_lossy(term: P) -> P:
